@@ -37,7 +37,8 @@ QA = os.environ.get('VERIF_QA', '/repo/qa')
 REF_FAMILIES = {(1, 1), (2, 1), (1, 4), (2, 4), (1, 128), (2, 128)}
 AP_FAMS = [(1, 1), (2, 1), (1, 4), (1, 128)]
 SESSIONS = [(True, False), (False, False), (True, True), (False, True)]  # (asn4, add-path) == c02.SESSIONS
-UPDATE_EVERY = 131      # keep every 131st c02 case of each session (a few hundred UPDATE bodies in all)
+UPDATE_EVERY = 263      # keep every 263rd c02 case of each session
+MAX_C02_BIG = 1         # ... but only one body above 400 bytes per session (the 300-AS paths)
 MAX_QA_BODY = 700       # recorded messages above this size are not used as deviation bases
 
 
@@ -91,10 +92,16 @@ def seeds_c02():
     out = []
     for sidx, s in enumerate(c02.SESSIONS):
         ap = set(c02.AP_FAMS) if s['addpath'] else set()
+        big = 0
         for i, case in enumerate(c02.cases('quick', s)):
             if i % UPDATE_EVERY:
                 continue
-            out.append((w.UPDATE, c02.encode(case, s['asn4'], ap), f'c02/s{sidx}-case{i}'))
+            body = c02.encode(case, s['asn4'], ap)
+            if len(body) > 400:
+                big += 1
+                if big > MAX_C02_BIG:
+                    continue
+            out.append((w.UPDATE, body, f'c02/s{sidx}-case{i}'))
     for name, body, fam in c02.eor_cases():
         out.append((w.UPDATE, body, f'c02/{name}'))
     for name, body in c02.near_eor_cases():
